@@ -295,12 +295,13 @@ Definition expected (n : nat) : prog :=
 
 (* ---------- specification vocabulary ---------- *)
 (* the error the caller keeps when it receives the functions' errors in the order [order] *)
+Definition fdflt : ufun := {| script := []; rv := 0; re := None |}.
 Fixpoint first_err (fs : list ufun) (order : list nat) : errv :=
   match order with
   | [] => None
-  | g :: r => match nth_error fs g with
-              | Some {| re := Some e |} => Some e
-              | _ => first_err fs r
+  | g :: r => match re (nth g fs fdflt) with
+              | Some e => Some e
+              | None => first_err fs r
               end
   end.
 
